@@ -201,6 +201,8 @@ def create_json_string(ol, description='', indent=1):
                     result['null'] = obj[key]
                 elif isinstance(key, (int, float, np.floating, np.integer)):
                     result[str(key)] = obj[key]
+                elif isinstance(key, str):
+                    result[key] = obj[key]
                 else:
                     raise TypeError('keys must be str, int, float, bool or None')
             return result
